@@ -38,6 +38,7 @@ class Rel:
     target: str                   # class name
     cascade: str = ''
     secondary: str | None = None
+    node: ast.AST | None = None
 
 
 @dataclass
@@ -104,7 +105,7 @@ def read_schema(rep: Report, idx: Index) -> tuple[dict[str, Model], dict[str, li
                     m.rels[b.target.id] = Rel(
                         b.target.id, target,
                         cas.value if isinstance(cas, ast.Constant) else '',
-                        norm(sec) if sec is not None else None)
+                        norm(sec) if sec is not None else None, b)
             elif isinstance(b, (ast.Assign, ast.AnnAssign)):
                 tgt = b.targets[0] if isinstance(b, ast.Assign) else b.target
                 if isinstance(tgt, ast.Name) and tgt.id == '__table_args__' and b.value is not None:
@@ -274,6 +275,42 @@ def r17_1(rep: Report, idx: Index, models: dict[str, Model], assoc, sites) -> No
                          'association rows behind')
 
 
+def r17_5(rep: Report, models: dict[str, Model]) -> None:
+    """a delete cascade removes only rows the parent owns: the target of a cascading relationship
+    holds the foreign key to the parent (one-to-many).  A cascade over an association table
+    (many-to-many) or towards the row this one points at (many-to-one) deletes rows that other
+    parents still use."""
+    rid = 'R17.5'
+    by_table = table_to_model(models)
+    for m in models.values():
+        for r in m.rels.values():
+            if 'delete' not in r.cascade and 'all' not in r.cascade:
+                continue
+            construct = f'{m.rel}::{m.cls}.{r.name}'
+            tgt = models.get(r.target)
+            if r.secondary:
+                rep.fail(rid, construct, f'cascade="{r.cascade}" over {r.secondary}',
+                         f'{m.cls}.{r.name} is a many-to-many relationship (secondary={r.secondary}) with '
+                         f'cascade="{r.cascade}": deleting one {m.cls} deletes {r.target} rows that other '
+                         f'{m.cls} rows still share', r.node)
+                continue
+            if tgt is None:
+                continue
+            owns = any(c.fk and by_table.get(c.fk.split('.')[0]) is m for c in tgt.columns.values())
+            one_to_one = any(c.fk and by_table.get(c.fk.split('.')[0]) is tgt and c.unique
+                             for c in m.columns.values())
+            if owns:
+                rep.ok(rid, construct, f'cascade="{r.cascade}"', f'{r.target} holds the foreign key to {m.cls}')
+            elif one_to_one:
+                rep.ok(rid, construct, f'cascade="{r.cascade}"',
+                       f'one-to-one: {m.cls} holds a unique foreign key to {r.target}')
+            else:
+                rep.fail(rid, construct, f'cascade="{r.cascade}"',
+                         f'{m.cls}.{r.name} cascades deletes to {r.target}, which holds no foreign key to '
+                         f'{m.cls}: the cascade follows a many-to-one reference and deletes a shared row',
+                         r.node)
+
+
 def r17_1_soft(rep: Report, idx: Index, cg: CallGraph, sites) -> None:
     """Stream.timing_ref (JSON) names a MediaFile: each MediaFile deletion site
     must clear or re-target the reference (or delete the stream as well)."""
@@ -427,6 +464,7 @@ def analyse(rep: Report) -> None:
     rep.rule('R17.1s', 'JSON soft references are cleared or re-targeted at deletion sites', floor=3)
     rep.rule('R17.2', 'names stay unique by constraint', floor=11)
     rep.rule('R17.3', 'stores after the last commit of a handler', floor=0, informational=True)
+    rep.rule('R17.5', 'delete cascades follow ownership (one-to-many) only', floor=5)
     rep.rule('R17.4', 'replace-on-upload deletes row and file together and links the new rows', floor=4)
     idx = Index(rep.repo)
     cg = CallGraph(idx)
@@ -442,6 +480,7 @@ def analyse(rep: Report) -> None:
                                                      for r in m.rels.values()}}
                            for m in models.values()}
     r17_1(rep, idx, models, assoc, sites)
+    r17_5(rep, models)
     r17_1_soft(rep, idx, cg, sites)
     r17_2(rep, models)
     r17_3(rep, idx, cg)
